@@ -808,7 +808,11 @@ def report(chk, items, recs, pid_filter=None):
         lab = it.get("label") or case_label(it["case"])
         if r["status"] == "skipped":
             skipped += 1
-            if r.get("ffcx_error"):
+            if r.get("ffcx_error") and it.get("must_compile") and not r.get("numba_error"):
+                # a form built only from documented pieces (rules, schemes, measures): no tensor at all is computed
+                chk.violation(f"{lab}:rejected", f"{lab}: ffcx fails on a supported form, so the integral is not computed at all: {r['why'][:300]}",
+                              {"item": it})
+            elif r.get("ffcx_error"):
                 chk.note(f"ffcx rejected/failed on {lab}: {r['why'][:200]}")
             elif r.get("missing_kernel"):
                 chk.violation(f"{lab}:missing-kernel", f"{lab}: {r['why']}", {"item": it})
